@@ -223,12 +223,12 @@ Example opp_real_example :
 Proof. vm_compute. reflexivity. Qed.
 
 (* AdjustBrightness: the ANSI colour names (the colours _color_to_rgb looks up)
-   for a lattice of brightness bounds (step 8/1000 over 0..1, both bounds):
+   for a lattice of brightness bounds (step 4/1000 over 0..1, both bounds: 251 x 251 pairs x 17 names):
    the new colour exists and is six hexadecimal digits.  PARTIAL: a statement
    for all bounds and all colours needs an error analysis of the float
    arithmetic (or 2^24 x 10^6 evaluations); the harness checks the rest by
    bit-exact correspondence (thorough: every colour, one bound pair per plane). *)
-Definition lattice : list Z := map (fun k => 8 * Z.of_nat k) (seq 0 126).
+Definition lattice : list Z := map (fun k => 4 * Z.of_nat k) (seq 0 251).
 Definition adj_row_ok (r g b mn : Z) : bool := forallb (fun mx => adj_chk mn mx r g b) lattice.
 Definition adj_col_ok (kv : str * rgb) : bool :=
   forallb (adj_row_ok (fst (fst (snd kv))) (snd (fst (snd kv))) (snd (snd kv))) lattice.
